@@ -33,6 +33,19 @@ Definition getZ (x : list Z) (k : Z) : Z := getD 0 x k.
 Definition firstnZ {A} (k : Z) (l : list A) : list A := firstn (Z.to_nat k) l.
 Definition lenZ {A} (l : list A) : Z := Z.of_nat (length l).
 Definition memZ (k : Z) (l : list Z) : bool := existsb (Z.eqb k) l.
+(* NumPy boolean-mask indexing: v[m] (the entries where m holds, in order), v[m] = c, v[m] = w (w has one entry per True of m) *)
+Fixpoint bfilt {X} (v : list X) (m : list bool) : list X :=
+  match v, m with x :: v', b :: m' => if b then x :: bfilt v' m' else bfilt v' m' | _, _ => [] end.
+Fixpoint bset {X} (v : list X) (m : list bool) (c : X) : list X :=
+  match v, m with x :: v', b :: m' => (if b then c else x) :: bset v' m' c | _, _ => v end.
+Fixpoint bscatter {X} (v : list X) (m : list bool) (e : list X) : list X :=
+  match v, m with
+  | x :: v', true :: m' => match e with y :: e' => y :: bscatter v' m' e' | [] => x :: bscatter v' m' [] end
+  | x :: v', false :: m' => x :: bscatter v' m' e
+  | _, _ => v
+  end.
+Definition zmask (p : Z -> bool) (z : list Z) : list bool := map p z.
+Definition band2 (a b : list bool) : list bool := map (fun p => andb (fst p) (snd p)) (combine a b).
 Definition swapZ {A} (d : A) (l : list A) (a b : Z) : list A := updZ (updZ l a (getD d l b)) b (getD d l a).
 Fixpoint rangeN (start : Z) (n : nat) : list Z := match n with O => [] | S k => start :: rangeN (start + 1) k end.
 Definition rangeZ (a b : Z) : list Z := rangeN a (Z.to_nat (b - a)).
@@ -147,6 +160,19 @@ Section V.
     match rows with [] => [] | r :: rs => fold_left (vmap2 add) rs r end.
   Definition vmean_rows (rows : mat) : vec := vmap (fun s => div s (ofZ (lenZ rows))) (vsum_rows rows).
   Definition vnorm (x : vec) : T := fsqrt (sumsq x).            (* np.linalg.norm of a vector *)
+  Definition vcmp2 (f : T -> T -> bool) (x y : vec) : list bool := map (fun p => f (fst p) (snd p)) (combine x y).   (* x <= y as a mask *)
+  Definition vsum (x : vec) : T := fold_left add x zero.           (* np.sum of a vector, summed left to right *)
+  (* int(v): truncation toward zero, for |v| < 2^52 (None for NaN and beyond: ValueError / OverflowError or out of the modelled range) *)
+  Fixpoint floor_search (fuel : nat) (lo hi : Z) (v : T) : Z :=     (* ofZ lo <= v < ofZ hi *)
+    match fuel with
+    | O => lo
+    | S f => if Z.leb hi (lo + 1) then lo
+             else let mid := (lo + hi) / 2 in if le (ofZ mid) v then floor_search f mid hi v else floor_search f lo mid v
+    end.
+  Definition py_int (v : T) : option Z :=
+    if isnan v then None
+    else if le (ofZ 0) v then (if lt v (ofZ 4503599627370496) then Some (floor_search 60 0 4503599627370496 v) else None)
+    else (if lt (ofZ (-4503599627370496)) v then Some (- floor_search 60 0 4503599627370496 (fneg v)) else None).
   (* np.where(test(v))[0]: ascending indices of the entries that pass; v[idxs] = c; i in idxs *)
   Fixpoint where_from (f : T -> bool) (x : vec) (i : Z) : list Z :=
     match x with [] => [] | a :: x' => if f a then i :: where_from f x' (i + 1) else where_from f x' (i + 1) end.
